@@ -1,9 +1,11 @@
 SPECIFICATION mcSimSpec
 CONSTANTS
   Funded <- mcFunded
+  Keyless <- mcKeyless
   Fresh <- mcFresh
   Funder = "s0"
   InitialUnits <- mcInitialUnits
+  McOps <- Ops
   Record = TRUE
   Weight = 12
   Depth = 8
